@@ -478,7 +478,9 @@ func Boot(p *Persist, armAt int) (n *PNode, crashed *CrashSignal, err error) {
 				n.halt()
 				return
 			}
-			panic(r)
+			// the node itself panicked while starting (e.g. in the handshake): it cannot restart
+			n.halt()
+			err = fmt.Errorf("panic during start-up: %v", r)
 		}
 	}()
 	blockDB := &pdb{MemDB: p.BlockDB, c: n.C, name: "blockdb"}
